@@ -10,6 +10,7 @@ their site; whether they are reached is decided by the machine.
     raises that ExpressionError, with the same location, iff the machine
     reaches the planted expression.
 """
+from harness import REPO_SRC  # noqa: E402
 import random
 import sys
 
@@ -45,7 +46,7 @@ def run(ctx):
 
 
 def strict_compile(ctx, progs):
-    sys.path.insert(0, "/repo/src")
+    sys.path.insert(0, REPO_SRC)
     from chameleon import PageTemplate
     from chameleon.exc import ExpressionError, TemplateError
     n = 0
